@@ -26,6 +26,7 @@ import (
 func init() {
 	core.Register(&core.Check{
 		ID:    "C19",
+		Race:  true, // the generator runs its search in several goroutines: the workload runs under the race detector
 		Level: "exploration",
 		Rule: "GetRandomSafePrimesConcurrent: bit lengths 6..24 x concurrency {1,2,4,16} x numPrimes {1,2,3} x repeated calls (quick 60, thorough 200 per cell), 64..512 bits x 20, 1024 x 2 (thorough); every returned pair checked with an independent primality test; " +
 			"a call that does not return is decided by the goroutine dump (caller parked in WaitGroup.Wait while a generator is parked in chan send = permanent), cancellation / entropy failure injected at the k-th read of an instrumented reader (logical instants); " +
